@@ -149,8 +149,10 @@ def direct_constraint(fit, c, form):
         raise RuntimeError("adapter: constraint form %r" % form)
 
 
-def yaml_constraint(c):
+def yaml_constraint(c, alt=0):
     if c["kind"] == "simple":
+        if alt % 2:      # the relative form of the mapping shorthand
+            return "dict", {"a": dict(value=float(c["v"]), uncertainty=c["u"] / 10.0 / abs(float(c["v"])), relative=True)}
         return "dict", {"a": dict(value=float(c["v"]), uncertainty=c["u"] / 10.0)}
     u = [t / 10.0 for t in c["u"]]
     rho = c["h"] / 2.0
@@ -176,7 +178,7 @@ def build_side(kind, d, decls, model_form="callable"):
         if len(errs) == 1 and isinstance(errs[0], list) and short:
             v0 = errs[0]
             errs = v0[0] if all(t == v0[0] for t in v0) and len(decls) % 2 else v0      # scalar shorthand or the list
-        cons = [yaml_constraint(e["item"]) for e in yaml_items if not is_src(e) and not is_setup(e)]
+        cons = [yaml_constraint(e["item"], alt=len(decls) + k) for k, e in enumerate(yaml_items) if not is_src(e) and not is_setup(e)]
         doc = dict(type={"hist": "histogram"}.get(kind, kind))
         model = {"xy": MODEL_SRC, "indexed": IDX_SRC}.get(kind, DENS_SRC)
         for e in yaml_items:
@@ -242,7 +244,11 @@ def build_side(kind, d, decls, model_form="callable"):
                 key = pre + "error" + ("_cor" if src["h"] == 2 else "") + ("_rel" if src["kind"] in ("rel", "relm") else "")
                 if key in kw or (src["kind"] == "rel" and to_model):
                     continue          # the keyword is taken: this item is added directly afterwards
-                kw[key] = rel if src["kind"] in ("rel", "relm") else float(sig[0])
+                val = rel if src["kind"] in ("rel", "relm") else float(sig[0])
+                if src["h"] == 2 and (len(decls) + src["s"]) % 2:
+                    # a sequence for error_cor / error_cor_rel means one fully correlated source PER ENTRY: (0.6 v, 0.8 v) add up to v in quadrature
+                    val = [0.6 * val, 0.8 * val]
+                kw[key] = val
                 done.add(id(e))
             elif is_setup(e):
                 sv = setup_values(kind, e["item"])
@@ -399,7 +405,7 @@ def compare_sides(kind, d, left, right, total, cons_normal, k, model_form, do_fi
             f.set_parameter_values(**{n: v for n, v in zip(f.parameter_names, start) if n not in fx})
         fl.do_fit()
         fr.do_fit()
-        pl, pr = np.asarray(fl.parameter_values), np.asarray(fr.parameter_values)
+        pl, pr = np.array(fl.parameter_values), np.array(fr.parameter_values)
         el, er = np.asarray(fl.parameter_errors), np.asarray(fr.parameter_errors)
         if np.any(np.abs(pl - pr) > 1e-3 * er + 1e-9):
             viol("SameProblem: fit results differ between the two forms", dict(left=pl.tolist(), right=pr.tolist(), sigma=er.tolist()))
